@@ -859,7 +859,9 @@ func SigSafe(s string) string {
 		}
 	}
 	if b.Len() > 80 {
-		return b.String()[:80]
+		// long signatures keep a hash of the whole text so that two of them
+		// never share a replay file
+		return fmt.Sprintf("%s-%08x", b.String()[:71], uint32(hash64(s)))
 	}
 	return b.String()
 }
